@@ -21,6 +21,7 @@ CLASSES = [
     "trailing-words", "trailing-unit", "trailing-arithmetic-like", "trailing-hash-only", "trailing-power-tower",
     "blank-lines", "whitespace-only-lines", "indentation", "crlf", "no-final-newline", "break-after-operator", "break-after-operand-in-parens",
     "unit-annotation", "description-annotation", "trailing-unit-change", "comment-unicode-line-separators", "crlf-with-blank-lines",
+    "annotation-on-relisted-parameter",
 ]
 RULE = (
     "model text M (vlib.modelgen, named and default components, units / descriptions) and M' = M + drawn inert "
@@ -160,6 +161,36 @@ def edit_text(draw, model, klass):
             else:
                 ent[key] = draw(st.sampled_from(UNITS_OK + ["not_a_unit", "furlongs per fortnight"] if key == "unit" else ["something else", "Info", "rate of x", "a, b and c"]))
         return text0, X.render_model(m, block_list=X.blocks(m))
+    elif klass == "annotation-on-relisted-parameter":
+        # a parameter listed (with the same value) in the block of a second component: annotating one
+        # of the listings, or both differently, changes nothing
+        comps = sorted({tuple(x["comps"]) for x in m["states"] + m["params"] + m["assigns"] if x["comps"] != [""]})
+        if not m["params"]:
+            return None
+        p = draw(st.sampled_from(m["params"]))
+        p.pop("unit", None)
+        p.pop("desc", None)
+        others = [c for c in comps if list(c) != p["comps"]] or [("Relisted",)]
+        comp = draw(st.sampled_from(others))
+        head = ", ".join(f'"{c}"' for c in comp)
+        val = X.render(p["value"])
+        anns = ['unit="mV"', 'description="listed again"', 'unit="ms**-1", description="rate"', 'description=""']
+        ann = draw(st.sampled_from(anns))
+        base_lines = X.render_model(m, block_list=X.blocks(m)).split("\n")
+        i = draw(st.sampled_from([0, len(base_lines)]))
+        plain = f"parameters({head}, {p['name']}={val})"
+        noted = f"parameters({head}, {p['name']}=ScalarParam({val}, {ann}))"
+        l0 = list(base_lines)
+        l0.insert(i, plain)
+        which = draw(st.sampled_from(["new", "original", "both"]))
+        m1 = json.loads(json.dumps(m))
+        if which in ("original", "both"):
+            for q in m1["params"]:
+                if q["name"] == p["name"]:
+                    q["desc"] = "the first listing"
+        l1 = X.render_model(m1, block_list=X.blocks(m1)).split("\n")
+        l1.insert(0 if i == 0 else len(l1), noted if which in ("new", "both") else plain)
+        return "\n".join(l0), "\n".join(l1)
     elif klass == "trailing-unit-change":
         m0 = json.loads(json.dumps(m))
         k = draw(st.integers(1, min(3, len(m["assigns"]))))
@@ -182,7 +213,7 @@ def strategy(tier):
     @st.composite
     def _s(draw):
         model = G.gen_model(draw, cfg)
-        klass = draw(st.sampled_from([k for k in CLASSES if k != "trailing-power-tower"]))
+        klass = draw(st.sampled_from([k for k in CLASSES if k != "trailing-power-tower"] + ["annotation-on-relisted-parameter"] * 2))
         if draw(st.sampled_from(range(80))) == 41:
             klass = "trailing-power-tower"  # each such case costs a 20 s subprocess time-out while the finding is open
         r = edit_text(draw, model, klass)
@@ -204,7 +235,10 @@ def observe(text):
         ode = B.load(text)
     except Exception as ex:
         return f"load:{type(ex).__name__}", None, None, None
-    memb = {a.name: tuple(sorted(a.components)) for a in list(ode.states) + list(ode.parameters) + list(ode.intermediates) + list(ode.state_derivatives)}
+    memb = {}
+    for a in list(ode.states) + list(ode.parameters) + list(ode.intermediates) + list(ode.state_derivatives):
+        # (a name listed in several blocks appears several times: keep all of its memberships)
+        memb[a.name] = tuple(sorted(memb.get(a.name, ()) + (tuple(sorted(a.components)),)))
     try:
         py = B.py_code(ode, schemes=["explicit_euler"])
         c = B.c_code(ode, schemes=["explicit_euler"])
@@ -260,7 +294,7 @@ def _first_diff(a, b):
 
 
 CLAIM = {
-    "text": "Bounded random exploration: each generated model is edited by one class of 'inert' changes (21 classes covering comments in every placement, comment text including arithmetic-like strings and power towers, blank lines, indentation, line endings, continuation, unit / description annotations) and must load, keep every definition's component and produce byte-identical Python and C code; hanging loads are detected in a killable subprocess. No absence claim.",
+    "text": "Bounded random exploration: each generated model is edited by one class of 'inert' changes (22 classes covering comments in every placement, comment text including arithmetic-like strings and power towers, blank lines, indentation, line endings, continuation, unit / description annotations) and must load, keep every definition's component and produce byte-identical Python and C code; hanging loads are detected in a killable subprocess. No absence claim.",
     "note": "Trusted: the edit generator only produces changes the statement calls inert. Several classes are open known findings (known_findings.json); they stay in the search and are counted as excluded.",
     "technique": "property-based testing (Hypothesis): metamorphic relation (inert text edit => identical model and output), subprocess guard for hangs",
 }
